@@ -5,6 +5,44 @@ import os
 VERIF = os.path.dirname(os.path.dirname(os.path.abspath(__file__)))
 
 CHECKS = {
+    "C02": dict(
+        technique="TLA+ semantic model of the major stage (MajorModel.tla + Filter.tla); TLC trace validation (MajorTrace.tla) brute-forcing every admissible allele multiset for each recorded real estimate_major call",
+        text="Every recorded call of the real estimate_major (planted/noisy evidence over the toy gene and shipped catalogues, rule-witness tables, gap 0/.1/.5) is validated by TLC against the "
+        "property-level definition: filters and candidates recomputed from raw counts, all admissible multisets enumerated, score = fit error + penalties, optimal, complete within gap (exact ties included), no repeats, carried-xor-novel.",
+        design_ref="DESIGN.md §4 C02",
+        note="Trusted: TLC, harness/evidence.py (planting), harness/project.py (structural projection). Cases with > 5000 candidate multisets are skipped and counted. Fixed-point 1e-4 with explicit error band; filter ties (float dependent) are UNDECIDED.",
+        engine="MajorModel",
+    ),
+    "C03": dict(
+        technique="TLA+ semantic model of the structure stage (CNModel.tla, CNRoute.tla); TLC trace validation (CNTrace.tla, CNRouteTrace.tla) enumerating every explanation (slot pair x extra copies x pseudogene copies) for each recorded real solve_cn_model / estimate_cn call",
+        text="Every recorded call of the real solve_cn_model on planted+noisy region depths (toy, CYP2A6, CYP2D6, GSTM1; M 3-6; gap 0/.1/.3; long-read fusion support; small cn_max) is validated by TLC: "
+        "well-formedness, score = objective of the best explanation, optimality, within-gap, no repeat, unreported-contains-reported; user-supplied / default / male-X routes validated against CNRoute.",
+        design_ref="DESIGN.md §4 C03",
+        note="Trusted: TLC, harness/project.py. Fixed-point band ~5e-4 of the score is UNDECIDED.",
+        engine="CNModel",
+    ),
+    "C04": dict(
+        technique="TLA+ semantic model of the minor stage (MinorModel.tla); TLC trace validation (MinorTrace.tla) checking safety rules on every reported allele, score-is-objective (modulo the homozygous-fill post-processing) and, on enumerable universes, optimality over all admissible assignments",
+        text="Every recorded call of the real estimate_minor (toy gene: noisy tables, 1-3 copies, all assignments enumerated in TLC; shipped genes: noise-free pairs and rule-witness tables) is validated against the property-level rules "
+        "(refines major, core kept, add only with copies and reads, carried has reads, one per site, supported is carried), the objective, optimality and reproduction of planted variants.",
+        design_ref="DESIGN.md §4 C04",
+        note="Trusted: TLC, harness/evidence.py, harness/project.py. Read-phase term not exercised by synthetic evidence; optimality on shipped-gene noisy instances is not enumerated.",
+        engine="MinorModel",
+    ),
+    "C15": dict(
+        technique="TLC exhaustive model checking of Filter.tla (MC_Filter: low-quality steps are stutter steps of the filtered view) + metamorphic trace validation (FilterTrace.tla) of real estimate_major/estimate_minor runs, each event also validated in full by MajorTrace/MinorTrace",
+        text="TLC checks that AddLowQ/RemoveLowQ steps never change Passes/FCov/Obs for all small sites; families of real runs (base evidence, then random low-quality additions/removals/changes) are validated: results and scores identical, every reported variant passes the filters recomputed by the spec from logged raw evidence.",
+        design_ref="DESIGN.md §4 C15",
+        note="Trusted: TLC, harness/evidence.py, harness/project.py (good/low classification mirrors the documented thresholds).",
+        engine="Filter",
+    ),
+    "C18": dict(
+        technique="TLA+ spec of typed parameter update through three routes + round trip (Params.tla); TLC exhaustive (MC_Params) ; every emitted (route, parameter, spelling) transition replayed into the real code and validated by ParamsTrace.tla",
+        text="All 5,556 spec-emitted cases (28 parameters x spellings x CLI/API/options routes, overrides, write-then-load) are executed against the real Profile / genotype() / main() paths and judged by ParamsTrace and by direct comparison.",
+        design_ref="DESIGN.md §4 C18",
+        note="Trusted: TLC, harness/checks/c18.py capture of the Profile object. Values the property does not pin (float for int parameter etc.) are marked unspecified and never alarm.",
+        engine="Params",
+    ),
     "C05": dict(
         technique="TLC exhaustive model checking of ILPEnum.tla + trace validation of real lpinterface runs (ILPEnumTrace.tla) + replay of TLC-emitted helper cases",
         text="TLC explores every model over 3 binaries/objective 0..2 with every solver tie-break against the 8 enumeration invariants and termination; "
@@ -18,6 +56,11 @@ CHECKS = {
 }
 
 ENGINES = [
+    dict(name="MajorModel", path="spec/MajorModel.tla", serves_properties=["C02", "C15"], kind_free_text="TLA+ semantic layer of major.py; trace/MajorTrace"),
+    dict(name="Filter", path="spec/Filter.tla", serves_properties=["C15", "C02", "C04"], kind_free_text="TLA+ spec of the quality/threshold filters; mc/MC_Filter, trace/FilterTrace"),
+    dict(name="CNModel", path="spec/CNModel.tla", serves_properties=["C03"], kind_free_text="TLA+ semantic layer of cn.py (+ CNRoute.tla); trace/CNTrace, trace/CNRouteTrace"),
+    dict(name="MinorModel", path="spec/MinorModel.tla", serves_properties=["C04", "C15"], kind_free_text="TLA+ semantic layer of minor.py; trace/MinorTrace"),
+    dict(name="Params", path="spec/Params.tla", serves_properties=["C18"], kind_free_text="TLA+ spec of Profile.update and its routes; mc/MC_Params, gen/ParamsGen, trace/ParamsTrace"),
     dict(name="ILPEnum", path="spec/ILPEnum.tla", serves_properties=["C05"], kind_free_text="TLA+ spec of lpinterface.solutions(); mc/MC_ILPEnum, trace/ILPEnumTrace"),
     dict(name="Linearise", path="spec/Linearise.tla", serves_properties=["C05"], kind_free_text="TLA+ constant-level spec of prod/abssum helpers + case emitter"),
 ]
